@@ -15,6 +15,10 @@ type getGen struct {
 func (g *getGen) generate() {
 	g.genComment()
 	g.P("func (x *", g.typeName, ") Get(descriptor ", protoreflectPkg.Ident("FieldDescriptor"), ") ", protoreflectPkg.Ident("Value"), " {")
+	// a nil message is a valid, empty, read-only message
+	g.P("if x == nil {")
+	g.P("x = &", g.typeName, "{}")
+	g.P("}")
 	g.P("switch descriptor.FullName() {")
 	// implement the fastReflectionFeature Get function
 	for _, field := range g.message.Fields {
